@@ -8,7 +8,7 @@
 //
 //	err == nil && result != original   => VIOLATION "wrong-data"
 //	err != nil but the entries returned before the error are not a prefix of
-//	the original                        => VIOLATION "wrong-data-before-error"
+//	the original                        => VIOLATION "wrong-data" (match.before_error = true)
 //	Go panic / memory fault             => VIOLATION "read-panic" (match.where = top pebble frame)
 package c27
 
@@ -411,6 +411,12 @@ type fileUnderTest struct {
 	cfgKey   string
 	nBlocks  int
 	nPoints  int
+	// work of one pristine read-out
+	baseReads int64
+	baseBytes int64
+	baseLines int
+	crc32c    bool
+	zstd      bool
 }
 
 // cpuMillis returns the CPU time consumed by this process so far. It is
@@ -454,7 +460,7 @@ func runFile(r *vcommon.Report, fi int, rng *rand.Rand, fut *fileUnderTest, base
 	// thinned by a fixed stride, then the cheap ones if still needed.
 	budget := 15000.0 // estimated milliseconds of CPU per file (the estimate is ~1.5x pessimistic on an idle machine)
 	if thorough {
-		budget = 60000
+		budget = 45000
 	}
 	if fut.kind == "blob" {
 		budget /= 2
@@ -497,7 +503,20 @@ func runFile(r *vcommon.Report, fi int, rng *rand.Rand, fut *fileUnderTest, base
 	// openMs: a corruption that already fails open; fullMs: open succeeds and
 	// every operation walks the (mostly intact) file.
 	openMs := 1.5
-	fullMs := 1.5 + 0.1*float64(fut.nPoints)
+	// Calibrated on race builds: a block read costs ~0.1ms with crc32c and
+	// ~0.03ms with xxhash64 checksums, ~0.1ms more when blocks are zstd
+	// compressed (cgo), and about 0.6 of that when a block cache serves repeats.
+	perRead := 0.03
+	if fut.crc32c {
+		perRead = 0.10
+	}
+	if fut.zstd {
+		perRead += 0.10
+	}
+	if fut.useCache {
+		perRead *= 0.6
+	}
+	fullMs := 1.5 + perRead*float64(fut.baseReads) + 0.004*float64(fut.baseLines)
 	if fut.kind == "blob" {
 		openMs = 1.0
 		fullMs = 3 + 0.15*float64(fut.nPoints)
@@ -614,8 +633,14 @@ func runFile(r *vcommon.Report, fi int, rng *rand.Rand, fut *fileUnderTest, base
 		ms := cpuMillis() - cpu0
 		r.Count("cpu_ms_info_only", ms)
 		if calib {
-			fmt.Printf("CALIB %s file=%d bytes=%d blocks=%d points=%d n=%d cpu_ms_per_corruption=%.2f [%s]\n", fut.kind, fi, len(fut.data), fut.nBlocks, fut.nPoints,
-				len(cs), float64(ms)/float64(max(1, len(cs))), fut.desc)
+			fmt.Printf("CALIB %s file=%d bytes=%d blocks=%d points=%d reads=%d rbytes=%d lines=%d n=%d est=%.2f cpu_ms_per_corruption=%.2f [%s]\n", fut.kind, fi, len(fut.data), fut.nBlocks, fut.nPoints,
+				fut.baseReads, fut.baseBytes, fut.baseLines, len(cs), func() float64 {
+					e := 0.0
+					for _, c := range cs {
+						e += weight(c)
+					}
+					return e / float64(max(1, len(cs)))
+				}(), float64(ms)/float64(max(1, len(cs))), fut.desc)
 		}
 	}()
 	var buf []byte
@@ -653,8 +678,14 @@ func runFile(r *vcommon.Report, fi int, rng *rand.Rand, fut *fileUnderTest, base
 			}
 			r.SetAdd("identical_regions", fut.kind+":"+rk+":"+c.pattern)
 		case "wrong-data", "wrong-data-before-error":
-			violate(r, v.outcome, fmt.Sprintf("%s file %d [%s] corruption %s: op %s returned without error but differs: %s", fut.kind, fi, fut.desc, c, v.op, v.detail),
-				replay(), map[string]any{"kind": fut.kind, "pattern": c.pattern, "region": rk, "op": v.op})
+			// Both are class "wrong-data"; before_error tells whether the op
+			// ended with an error after having returned different entries.
+			how := "returned without error but differs"
+			if v.outcome == "wrong-data-before-error" {
+				how = "returned entries that differ from the original before reporting an error"
+			}
+			violate(r, "wrong-data", fmt.Sprintf("%s file %d [%s] corruption %s: op %s %s: %s", fut.kind, fi, fut.desc, c, v.op, how, v.detail),
+				replay(), map[string]any{"kind": fut.kind, "pattern": c.pattern, "region": rk, "op": v.op, "before_error": v.outcome == "wrong-data-before-error"})
 		case "read-panic":
 			violate(r, "read-panic", fmt.Sprintf("%s file %d [%s] corruption %s: op %s panicked in %s: %s", fut.kind, fi, fut.desc, c, v.op, v.where, strings.SplitN(v.detail, "\n", 2)[0]),
 				replay(), map[string]any{"where": v.where, "pattern": c.pattern, "kind": fut.kind})
@@ -670,8 +701,20 @@ func runFile(r *vcommon.Report, fi int, rng *rand.Rand, fut *fileUnderTest, base
 	}
 }
 
+// baselineWork is the work (ReadAt calls, bytes, transcript lines) of the last
+// pristine read-out checked by checkBaseline.
+var baselineWork struct {
+	reads, bytes int64
+	lines        int
+}
+
 func checkBaseline(r *vcommon.Report, fi int, what string, read func() []opResult) ([]opResult, bool) {
+	c0, b0 := readAtCalls, readAtBytes
 	b1 := read()
+	baselineWork.reads, baselineWork.bytes, baselineWork.lines = readAtCalls-c0, readAtBytes-b0, 0
+	for _, o := range b1 {
+		baselineWork.lines += len(o.lines)
+	}
 	for _, o := range b1 {
 		if o.panicMsg != "" || o.err != nil {
 			r.Inconclusive("file %d (%s): pristine read-out fails in op %s: %v %s", fi, what, o.name, o.err, o.panicMsg)
@@ -759,6 +802,8 @@ func TestVerifC27(t *testing.T) {
 		verOff := len(bt.data) - 8 - 4
 		_ = footerOff
 		fut := &fileUnderTest{kind: "table", desc: spec.String(), data: bt.data, read: read, regions: regions, verOff: verOff, useCache: spec.UseCache, nBlocks: len(layout) - 2, nPoints: bt.nPoints,
+			baseReads: baselineWork.reads, baseBytes: baselineWork.bytes, baseLines: baselineWork.lines,
+			crc32c: spec.Checksum == block.ChecksumTypeCRC32c, zstd: spec.Profile == "zstd" || spec.Profile == "good" || spec.Profile == "mixed",
 			cfgKey: fmt.Sprintf("%s/%s/%s/2lvl=%v/filter=%v/blob=%v/cache=%v", spec.Format, spec.Checksum, spec.Profile, spec.IndexBlockSize < 100, spec.Filter != "", spec.BlobRefs, spec.UseCache)}
 		runFile(r, fi, rng, fut, baseline)
 	})
@@ -832,6 +877,7 @@ func TestVerifC27Blob(t *testing.T) {
 			r.Sample(map[string]any{"file": fi, "spec": spec.String(), "bytes": len(bb.data), "values": len(bb.vals), "regions": len(regions)})
 		}
 		fut := &fileUnderTest{kind: "blob", desc: spec.String(), data: bb.data, read: read, regions: regions, verOff: -1, useCache: fi%3 == 0, nBlocks: len(regions) / 2, nPoints: len(bb.vals),
+			baseReads: baselineWork.reads, baseBytes: baselineWork.bytes, baseLines: baselineWork.lines,
 			cfgKey: fmt.Sprintf("%s/%s/%s", spec.Format, spec.Checksum, spec.Profile)}
 		runFile(r, fi, rng, fut, baseline)
 	})
